@@ -270,8 +270,8 @@ theorem C07_chain_nonlinear (s : ℝ) (F J : CVec ℝ n → CVec ℝ m) (G : CVe
     IsGradAt (fun z => s * φ (vsub (F z) y)) x (vsmul s (vjpWrap true G g)) :=
   isGradAt_comp_operator s F J G y φ x g hJ hG h
 
-/-- `SquaredSetDistance` (formula of `fixes/set-distance-grad-nan.patch`: `0.5·Σ|x − P(x)|²`, no square
-    root) and `SetDistance` (`‖x − P(x)‖`) for ANY projection `P` with JAX's contracts at `x` (`JP`, `GP`):
+/-- `SquaredSetDistance` (`0.5·Σ|x − P(x)|²`) and `SetDistance` (`_l2norm`-style guarded square root of
+    `Σ|x − P(x)|²`), code after repair 8f5a90e, for ANY projection `P` with JAX's contracts at `x` (`JP`, `GP`):
     `grad` — `Gmap` of the residual map `z ↦ z − P z` applied to the outer gradient — is the gradient;
     the squared distance at **every** `x` (points of the set included), the distance where `x ≠ P x`. -/
 theorem C07_set_distance (P JP GP : CVec ℝ n → CVec ℝ n) (x : CVec ℝ n)
@@ -280,7 +280,7 @@ theorem C07_set_distance (P JP GP : CVec ℝ n → CVec ℝ n) (x : CVec ℝ n)
     IsGradAt (fun z => (1 / 2) * sumAbs2 (vsub z (P z))) x
       (vsmul (1 / 2) (vjpWrap true (fun c => vsub c (GP c)) ((Fn.sqL2 : Fn ℝ n).grad (vsub x (P x))))) ∧
     (sumAbs2 (vsub x (P x)) ≠ 0 →
-      IsGradAt (fun z => norm2 (vsub z (P z))) x
+      IsGradAt (fun z => l2normGuarded (sumAbs2 (vsub z (P z)))) x
         (vjpWrap true (fun c => vsub c (GP c)) ((Fn.l2 : Fn ℝ n).grad (vsub x (P x))))) := by
   obtain ⟨h1, h2⟩ := residual_contracts P JP GP x hJ hG
   constructor
@@ -290,7 +290,25 @@ theorem C07_set_distance (P JP GP : CVec ℝ n → CVec ℝ n) (x : CVec ℝ n)
   · intro hne
     have h := isGradAt_comp_operator 1 (fun z => vsub z (P z)) _ _ 0 (Fn.l2 : Fn ℝ n).eval x _ h1 h2
       ((Fn.l2 : Fn ℝ n).isCurveGradAt _ (by simpa only [vsub_zero, Fn.Smooth] using hne))
+    have e : ∀ z : CVec ℝ n, l2normGuarded (sumAbs2 (vsub z (P z))) = norm2 (vsub z (P z)) :=
+      fun z => l2normGuarded_eq _ (sumAbs2_nonneg _)
+    simp only [e]
     simpa only [vsub_zero, vsmul_one, one_mul, Fn.eval] using h
+
+/-- `SetDistance` at a point in the interior of the set (`P` is the identity near `x` along every line):
+    the guarded square root makes the functional identically 0 there and JAX's gradient through the
+    `where` is 0 — the true gradient.  (Before repair 8f5a90e the code returned NaN: `norm` at 0.) -/
+theorem C07_set_distance_interior (P : CVec ℝ n → CVec ℝ n) (x : CVec ℝ n)
+    (hP : ∀ d, ∀ᶠ t in nhds (0 : ℝ), P (along x d t) = along x d t) :
+    IsGradAt (fun z => l2normGuarded (sumAbs2 (vsub z (P z)))) x (fun _ => 0) := by
+  intro d
+  have h0 : reInner (fun _ => (0 : Cx ℝ)) d = 0 := by rw [reInner_eq]; simp
+  rw [h0]
+  refine (hasDerivAt_const (0 : ℝ) (0 : ℝ)).congr_of_eventuallyEq ?_
+  filter_upwards [hP d] with t ht
+  have : vsub (along x d t) (P (along x d t)) = fun _ => 0 := by
+    rw [ht]; funext i; apply Cx.ext' <;> simp [vsub]
+  simp [this, sumAbs2_eq, Cx.abs2, l2normGuarded]
 
 /-- the operator family `F(x) = Ax + B conj(x) + (Cx)² + c` of the correspondence: `Op.jvp` **is** the
     derivative of `F` along every line (so "jvp agrees with finite differences" is a theorem for
